@@ -638,23 +638,58 @@ class DocumentMapper:
         return self.get_insertion_anchor(index), False
 
     def _split_run_at_index(self, run: Run, split_index: int) -> Tuple[Run, Run]:
-        text = run.text
-        left_text = text[:split_index]
-        right_text = text[split_index:]
+        """
+        Splits a run into two sibling runs at `split_index`, counted in the units of get_run_text
+        (characters of w:t / w:delText, one unit per w:tab / w:br / w:cr). Every child element is
+        kept exactly once, on the side it belongs to; only a text node that straddles the split
+        point is divided. Run properties are copied to the new run.
+        """
+        left_el = run._element
+        right_el = deepcopy(left_el)
 
-        run.text = left_text
-        new_r_element = deepcopy(run._element)
-        t_list = new_r_element.findall(qn("w:t"))
-        for t in t_list:
-            new_r_element.remove(t)
+        text_tags = (qn("w:t"), qn("w:delText"))
+        unit_tags = (qn("w:tab"), qn("w:br"), qn("w:cr"))
 
-        new_t = OxmlElement("w:t")
-        new_t.text = right_text
-        if right_text.strip() != right_text:
-            new_t.set(qn("xml:space"), "preserve")
-        new_r_element.append(new_t)
-        run._element.addnext(new_r_element)
-        new_run = Run(new_r_element, run._parent)
+        def _set_text(el, value: str):
+            el.text = value
+            if value.strip() != value:
+                el.set(qn("xml:space"), "preserve")
+
+        consumed = 0
+        for l_child, r_child in zip(list(left_el), list(right_el)):
+            if l_child.tag == qn("w:rPr"):
+                continue
+            if l_child.tag in text_tags:
+                width = len(l_child.text or "")
+            elif l_child.tag in unit_tags:
+                width = 1
+            else:
+                width = 0
+
+            if consumed >= split_index:
+                left_el.remove(l_child)
+            elif consumed + width <= split_index:
+                right_el.remove(r_child)
+            else:
+                cut = split_index - consumed
+                full = l_child.text or ""
+                _set_text(l_child, full[:cut])
+                _set_text(r_child, full[cut:])
+            consumed += width
+
+        # Adjacent text nodes (left over from run coalescing) are joined so that each half
+        # carries its text in one node, as before.
+        for r_el in (left_el, right_el):
+            prev = None
+            for child in list(r_el):
+                if prev is not None and child.tag in text_tags and child.tag == prev.tag:
+                    _set_text(prev, (prev.text or "") + (child.text or ""))
+                    r_el.remove(child)
+                else:
+                    prev = child if child.tag in text_tags else None
+
+        left_el.addnext(right_el)
+        new_run = Run(right_el, run._parent)
         return run, new_run
 
     def get_context_at_range(self, start_idx: int, end_idx: int) -> Optional[TextSpan]:
